@@ -765,6 +765,7 @@ static void run_c10(uint64_t c, unsigned maxp) {
         if (fl) {
             float f = float(d);
             if (std::isinf(f)) f = 3.4e38f;
+            if (r.chance(1, 8)) f = bfloat(uint32_t(r.below(0x00800000)) | (uint32_t(r.below(2)) << 31)); // float subnormals
             d = double(f);
         }
         switch (i & 7) {
